@@ -63,7 +63,7 @@ def run(R, ctx):
                                "Parallel sessions: 4-10 connections, each owning its keys, receive pipelines of large array replies at the same "
                                "moment (PAR steps); every client must get exactly its own replies. "
                                "Slow-reader sessions: a client pipelines 1 MiB replies, reads the first chunk, does not read for 6.5 s (thorough: also 12 s, 35 s), then "
-                               "reads on: every reply whole and in order.", parallel=6,
+                               "reads on: every reply whole and in order. Half-closed pipelines (TCP, sending side closed right after the last byte): exactly one reply per command written.", parallel=6, halfclose=3,
                                stalls=((6500,) if R.tier == "quick" else (6500, 12000, 35000)), extra_lines=extra)
     if broken and not any(found for _p, _s, found in R.violations):
         # fact F6 is broken and neither the suite nor the sessions aimed at the offending executors produced a framing break: name the call
